@@ -24,6 +24,7 @@ instance FKey.instLinearOrder : LinearOrder FKey where
     omega
   toDecidableLE := FKey.instDecLE
   toDecidableLT := FKey.instDecLT
+  toDecidableEq := instDecidableEqFKey
   min := FKey.instMin.min
   max := FKey.instMax.max
   min_def a b := rfl
